@@ -231,7 +231,7 @@ Proof.
 Qed.
 
 Lemma cmp_items_suffix dc : keys_nodup dc = true ->
-  forall items pre, dc = pre ++ items -> cmp_items items (Some dc) = Accept.
+  forall items pre, dc = pre ++ items -> cmp_items items dc = Accept.
 Proof.
   intro Hk. induction items as [|[k v] items IH]; intros pre Hd; cbn; [reflexivity|].
   subst dc. rewrite sassoc_app_notin by (eapply keys_nodup_notin; eassumption).
@@ -242,15 +242,25 @@ Qed.
 Lemma nth_error_app_here {A} (pre : list A) x rest : nth_error (pre ++ x :: rest) (length pre) = Some x.
 Proof. induction pre; cbn; auto. Qed.
 
-Lemma cmp_props_suffix pc : forallb keys_nodup pc = true ->
-  forall po pre, pc = pre ++ po -> cmp_props (length pre) po pc = Accept.
+Lemma in_has_key kv d : In kv d -> has_key (fst kv) d = true.
 Proof.
-  intro Hk. induction po as [|d po IH]; intros pre Hp; cbn; [reflexivity|].
-  subst pc. rewrite nth_error_app_here.
-  rewrite (cmp_items_suffix d) with (pre := []); [|
-    rewrite forallb_forall in Hk; apply Hk; apply in_or_app; right; left; reflexivity|reflexivity].
-  cbn. replace (S (length pre)) with (length (pre ++ [d])) by (rewrite app_length; cbn; lia).
-  apply IH. rewrite <- app_assoc. reflexivity.
+  unfold has_key. induction d as [|[k' v'] d IH]; cbn; [contradiction|].
+  intros [<-|Hin]; cbn.
+  - rewrite str_eqb_refl. reflexivity.
+  - destruct (str_eqb (fst kv) k'); [reflexivity|apply IH; assumption].
+Qed.
+
+Lemma keys_eqb_refl d : keys_eqb d d = true.
+Proof.
+  unfold keys_eqb. apply andb_true_iff. split; apply forallb_forall; intros kv Hin; apply in_has_key; assumption.
+Qed.
+
+Lemma cmp_props_refl ps : forallb keys_nodup ps = true -> cmp_props ps ps = Accept.
+Proof.
+  induction ps as [|d ps IH]; cbn [forallb cmp_props]; intro Hk; [reflexivity|].
+  apply andb_true_iff in Hk as [Hd Hk].
+  rewrite keys_eqb_refl. cbn [check seq].
+  rewrite (cmp_items_suffix d Hd d []) by reflexivity. cbn [seq]. apply IH. assumption.
 Qed.
 
 Definition props_ok (i : inst) : Prop :=
@@ -263,7 +273,7 @@ Lemma cmp_inst_refl i : props_ok i -> cmp_inst (Some i) (Some i) = Accept.
 Proof.
   unfold props_ok, cmp_inst. intro H. cbn. rewrite !oname_eqb_refl, cmp_ref_refl. cbn.
   destruct (i_props i) as [ps|]; [|reflexivity].
-  apply (cmp_props_suffix ps H ps []). reflexivity.
+  rewrite Nat.eqb_refl. cbn [check seq]. apply cmp_props_refl. assumption.
 Qed.
 
 Lemma wf_inst_props_ok i : wf_inst i = true -> props_ok i.
